@@ -667,6 +667,12 @@ def _cache_key(op, pre):
     for c in pre:
         if isinstance(c, bool):
             continue
+        if isinstance(c, dict) and c.get("t") == "nps" and c.get("dt", "").startswith(("int", "uint")) and n is None:
+            try:
+                n = int(c["r"])       # a qubit count given as a numpy integer
+            except ValueError:
+                pass
+            continue
         if isinstance(c, int) and n is None:
             n = c
         elif isinstance(c, str) and conn is None and len(c) < 12:
@@ -683,6 +689,6 @@ def _cache_key(op, pre):
         if fam in ("prep", "tomo") and conn is None:
             conn = "all"
         kind = "mub" if (fam == "mub" or "mub" in op or "full_state" in op or "FST" in op) else "stabilizer"
-        if n is not None and conn is not None:
+        if n is not None and conn is not None and 0 <= n <= 9:
             return f"{kind}{n}-{conn}"
     return None
